@@ -514,7 +514,15 @@ func init() {
 				s.N = d.Pick(4000, 40000)
 				specs = append(specs, s)
 			}
-			d.RunWorkers(specs, 16)
+			// a slice of the same configurations under the race detector (async loggers, rolling loggers with inner workers)
+			for i := 0; i < int(d.Pick(2, 6)); i++ {
+				s := d.NewSpec("cfg", fmt.Sprintf("cfg-race-%d", i), 200+i, 16)
+				s.N = d.Pick(250, 3000)
+				s.Flavour = "race"
+				specs = append(specs, s)
+			}
+			outs := d.RunWorkers(specs, 16)
+			d.raceVerdict(outs)
 		},
 	})
 }
